@@ -5,6 +5,7 @@ package main
 
 import (
 	"bytes"
+	"context"
 	"encoding/json"
 	"flag"
 	"fmt"
@@ -15,10 +16,15 @@ import (
 	"sort"
 	"strings"
 	"sync"
+	"time"
 
 	"github.com/pingcap/log"
 	"github.com/tikv/pd/pkg/btree"
+	"github.com/tikv/pd/pkg/mock/mockid"
+	"github.com/tikv/pd/server/cluster"
+	"github.com/tikv/pd/server/config"
 	"github.com/tikv/pd/server/core"
+	"github.com/tikv/pd/server/kv"
 	"go.uber.org/zap"
 	"go.uber.org/zap/zapcore"
 
@@ -322,6 +328,7 @@ func (c btCase) coq() string {
 type rop struct {
 	K      string       `json:"k"`
 	R      *c07x.Region `json:"r,omitempty"`
+	R2     *c07x.Region `json:"r2,omitempty"` // hbrace: the heartbeat that overtakes R
 	ID     uint64       `json:"id,omitempty"`
 	S      string       `json:"s,omitempty"`
 	E      string       `json:"e,omitempty"`
@@ -334,12 +341,15 @@ type rop struct {
 	Inner  string       `json:"inner,omitempty"`
 	Stash  bool         `json:"stashed,omitempty"` // search / prev: the answer is the one obtained inside the iterator of the preceding scan
 	draws  []int
+	p, p2  *c07x.Region // hbrace: what the model sees of R and R2 (projection of the real RegionInfo objects)
 }
 
 func (o rop) coq() string {
 	switch o.K {
 	case "set":
 		return "OSet " + o.R.Coq()
+	case "hbrace": // two operations of the model: the overtaking heartbeat, then the parked one
+		return "OSet " + o.p2.Coq() + "; OSet " + o.p.Coq()
 	case "remove":
 		return fmt.Sprintf("ORemove %d", o.ID)
 	case "get":
@@ -376,9 +386,11 @@ func (o rop) coq() string {
 
 type world struct {
 	ri        *core.RegionsInfo
-	stash     []string // answers of the lookups made inside the iterator of the last re-entrant scan: (search, prev) per callback
-	malformed bool     // the case belongs to the malformed stream (a nil dereference in SetRegion / RemoveRegion is modelled)
-	panic     string   // "<function>: <message>" of a panic of the real code that is not such an observation
+	bc        *core.BasicCluster // puts go through BasicCluster.PutRegion (the layer around RegionsInfo.SetRegion); created on first use
+	hb        *hbRig             // RaftCluster facades over bc for the heartbeat race phase; created on first use
+	stash     []string           // answers of the lookups made inside the iterator of the last re-entrant scan: (search, prev) per callback
+	malformed bool               // the case belongs to the malformed stream (a nil dereference in SetRegion / RemoveRegion is modelled)
+	panic     string             // "<function>: <message>" of a panic of the real code that is not such an observation
 }
 
 func randFam(ri *core.RegionsInfo, fam string, store uint64, ranges []core.KeyRange) *core.RegionInfo {
@@ -391,6 +403,81 @@ func randFam(ri *core.RegionsInfo, fam string, store uint64, ranges []core.KeyRa
 		return ri.RandLearnerRegion(store, ranges)
 	}
 	return ri.RandPendingRegion(store, ranges)
+}
+
+func (w *world) cluster() *core.BasicCluster {
+	if w.bc == nil {
+		w.bc = core.NewBasicCluster()
+		w.bc.Regions = w.ri
+	}
+	return w.bc
+}
+
+// hbRig: two RaftCluster facades over the world's BasicCluster (as in the C06 driver): facade a is parked at c.Lock() by
+// holding its read lock, facade b runs a whole heartbeat meanwhile.
+type hbRig struct {
+	a, b *cluster.RaftCluster
+}
+
+func (w *world) rig() *hbRig {
+	if w.hb == nil {
+		mk := func() *cluster.RaftCluster {
+			rc := cluster.NewRaftCluster(context.Background(), "", 1, nil, nil, nil)
+			rc.InitCluster(mockid.NewIDAllocator(), config.NewTestOptions(), core.NewStorage(kv.NewMemoryKV()), w.cluster())
+			return rc
+		}
+		w.hb = &hbRig{a: mk(), b: mk()}
+	}
+	return w.hb
+}
+
+// hbRace: heartbeat A (o.R) passes its first PreCheckPutRegion and waits at c.Lock(); heartbeat B (o.R2) of the same region is
+// processed completely; then A takes the lock, is checked again and put.  Both are reports of a cached region with its cached
+// range and epoch, so nothing is displaced and the region set afterwards is the one after SetRegion(B); SetRegion(A).
+func (w *world) hbRace(o *rop) string {
+	rig := w.rig()
+	a := core.RegionFromHeartbeat(o.R.Heartbeat())
+	b := core.RegionFromHeartbeat(o.R2.Heartbeat())
+	pa, pb := c07x.Project(a), c07x.Project(b)
+	o.p, o.p2 = &pa, &pb
+	done := make(chan error, 1)
+	rig.a.RLock()
+	go func() {
+		defer func() {
+			if e := recover(); e != nil {
+				done <- fmt.Errorf("panic: %v", e)
+			}
+		}()
+		done <- rig.a.VerifC06ProcessRegionHeartbeat(a)
+	}()
+	parked := false
+	deadline := time.Now().Add(10 * time.Second)
+	for !parked {
+		select {
+		case err := <-done: // answered at the first check
+			rig.a.RUnlock()
+			errB := rig.b.VerifC06ProcessRegionHeartbeat(b)
+			_, _ = err, errB
+			return "RoBad \"heartbeat A was answered before it reached the lock\"; RoRegs []"
+		default:
+		}
+		if rig.a.TryRLock() {
+			rig.a.RUnlock()
+		} else {
+			parked = true
+		}
+		if time.Now().After(deadline) {
+			panic("heartbeat A neither returned nor reached c.Lock()")
+		}
+		time.Sleep(20 * time.Microsecond)
+	}
+	errB := rig.b.VerifC06ProcessRegionHeartbeat(b)
+	rig.a.RUnlock()
+	errA := <-done
+	if errA != nil || errB != nil {
+		return fmt.Sprintf("RoBad \"heartbeat rejected: A=%v B=%v\"; RoRegs []", errA != nil, errB != nil)
+	}
+	return "RoRegs []; RoRegs []"
 }
 
 // exec runs one op on the real RegionsInfo.  A nil dereference inside SetRegion / RemoveRegion on the malformed stream is an
@@ -412,7 +499,7 @@ func (w *world) exec(o *rop) (obs string) {
 	switch o.K {
 	case "set":
 		info := o.R.Info()
-		ov := ri.SetRegion(info)
+		ov := w.cluster().PutRegion(info)
 		// read-only observers: the log formatting helpers, on the region that is now cached and on what it displaced
 		// (once per object: a helper that is not read-only would otherwise compound its damage on every call)
 		_ = core.RegionToHexMeta(info.GetMeta()).String()
@@ -430,6 +517,8 @@ func (w *world) exec(o *rop) (obs string) {
 			return "RoBad \"nil-overlap\""
 		}
 		return "RoRegs " + s
+	case "hbrace":
+		return w.hbRace(o)
 	case "remove":
 		if g := ri.GetRegion(o.ID); g != nil {
 			ri.RemoveRegion(g)
@@ -608,6 +697,16 @@ func (g *riGen) rangeKeys() (string, string) {
 
 // put applies SetRegion and classifies the put for the histogram.
 func (g *riGen) put(x c07x.Region) {
+	// a region that swallows cached neighbours and itself reports size 0 or 1 (the first heartbeats after a merge)
+	if !g.dead && g.r.Pct(25) {
+		for _, o := range g.w.ri.GetOverlaps(x.Info()) {
+			if o != nil && o.GetID() != x.ID {
+				x.Size = int64(g.r.Intn(2))
+				g.c.tags["put:size-0-or-1-swallowing"]++
+				break
+			}
+		}
+	}
 	old, had := g.cached[x.ID]
 	ob := g.step(rop{K: "set", R: &x})
 	nov := strings.Count(ob, "(")
@@ -900,6 +999,9 @@ func genRI(r *rng.R, a c07x.Alphabet, nmut int, malformed bool) riCase {
 	for k, v := range sim.Hist {
 		c.tags[k] += v
 	}
+	if !malformed {
+		g.heartbeatRace()
+	}
 	// concurrent readers on the final, unchanged region set
 	if d := g.concurrentReaders(60); d != "" {
 		c.concurrent = d
@@ -1060,6 +1162,91 @@ func widePeersCase(seed uint64) riCase {
 	g.queries(true)
 	g.step(rop{K: "remove", ID: 3})
 	g.queries(true)
+	return c
+}
+
+// heartbeatRace: two reports of one cached region (same range and epoch) through the real processRegionHeartbeat on two
+// goroutines with the interleaving forced: A (statistics only w.r.t. the cached region) waits at c.Lock(), B (other leader, other
+// pending peers, other size) is processed completely, then A continues.  Afterwards every per-store statistic is queried.
+func (g *riGen) heartbeatRace() {
+	x, ok := g.someCached()
+	if !ok || g.dead || len(x.Peers) < 2 || x.Start >= x.End && x.End != "" {
+		return
+	}
+	voters := []c07x.Peer{}
+	for _, p := range x.Peers {
+		if !p.Learner {
+			voters = append(voters, p)
+		}
+	}
+	if len(voters) < 2 || x.Leader == 0 {
+		return
+	}
+	a := x.Clone()
+	a.Size, a.Stamp = x.Size+5+int64(g.r.Intn(20)), g.nextStamp()
+	b := x.Clone()
+	for _, p := range voters {
+		if p.ID != x.Leader {
+			b.Leader = p.ID
+			break
+		}
+	}
+	b.Pending = nil
+	if len(x.Pending) == 0 {
+		b.Pending = []c07x.Peer{voters[len(voters)-1]}
+	}
+	b.Size, b.Stamp = x.Size+40+int64(g.r.Intn(20)), g.nextStamp()
+	g.step(rop{K: "hbrace", R: &a, R2: &b})
+	g.c.tags["phase:heartbeat-race"]++
+	g.step(rop{K: "global"})
+	for st := 1; st <= g.stores+1; st++ {
+		g.step(rop{K: "counts", Store: uint64(st)})
+		g.step(rop{K: "storeregions", Store: uint64(st)})
+	}
+	g.step(rop{K: "get", ID: x.ID})
+	// a further ordinary report of the region: statistics must still add up
+	c := a.Clone()
+	c.Size, c.Stamp = a.Size+3, g.nextStamp()
+	g.step(rop{K: "set", R: &c})
+	for st := 1; st <= g.stores+1; st++ {
+		g.step(rop{K: "counts", Store: uint64(st)})
+	}
+}
+
+// mergeSizeCase: the first heartbeats of a merged region report size 0 / 1: a put that swallows its neighbour and carries no
+// size, the statistics, then the refresh with the real size, the statistics again, and a removal.
+func mergeSizeCase(sz int64) riCase {
+	c := riCase{Kind: "ri", tags: map[string]int{"directed:merge-without-size": 1}}
+	g := &riGen{r: rng.New(uint64(11 + sz)), a: c07x.Small(), w: &world{ri: core.NewRegionsInfo()}, c: &c, stores: 3, cached: map[uint64]c07x.Region{}}
+	peers := func(id uint64) []c07x.Peer {
+		return []c07x.Peer{{ID: id*10 + 1, Store: 1}, {ID: id*10 + 2, Store: 2}, {ID: id*10 + 3, Store: 3}}
+	}
+	all := func() {
+		g.step(rop{K: "global"})
+		for st := 1; st <= 3; st++ {
+			g.step(rop{K: "counts", Store: uint64(st)})
+		}
+	}
+	x := c07x.Region{ID: 1, Start: "a", End: "c", Peers: peers(1), Leader: 11, Size: 10, Ver: 1, ConfVer: 1, Term: 1, Stamp: g.nextStamp()}
+	y := c07x.Region{ID: 2, Start: "c", End: "e", Peers: peers(2), Leader: 22, Size: 20, Ver: 1, ConfVer: 1, Term: 1, Stamp: g.nextStamp()}
+	z := c07x.Region{ID: 3, Start: "e", End: "", Peers: peers(3), Leader: 33, Size: 7, Ver: 1, ConfVer: 1, Term: 1, Stamp: g.nextStamp()}
+	g.step(rop{K: "set", R: &x})
+	g.step(rop{K: "set", R: &y})
+	g.step(rop{K: "set", R: &z})
+	all()
+	m := x.Clone() // region 1 has absorbed region 2, no size sampled yet
+	m.End, m.Ver, m.Size, m.Stamp = "e", 2, sz, g.nextStamp()
+	g.step(rop{K: "set", R: &m})
+	all()
+	m2 := m.Clone() // the refresh with the real size
+	m2.Size, m2.Stamp = 31, g.nextStamp()
+	g.step(rop{K: "set", R: &m2})
+	all()
+	n := c07x.Region{ID: 4, Start: "", End: "", Peers: peers(4), Leader: 41, Size: sz, Ver: 3, ConfVer: 1, Term: 1, Stamp: g.nextStamp()} // a new id over everything
+	g.step(rop{K: "set", R: &n})
+	all()
+	g.step(rop{K: "remove", ID: 4})
+	all()
 	return c
 }
 
@@ -1307,6 +1494,8 @@ func main() {
 			emitRI(c)
 		}
 		emitRI(bigTreeReaders(*seed))
+		emitRI(mergeSizeCase(0))
+		emitRI(mergeSizeCase(1))
 		emitRI(widePeersCase(*seed))
 		emitRI(widePeersCase(*seed + 1000))
 		{
